@@ -180,6 +180,8 @@ def _worker(job):
         if job.opts.get('monitor_alloc'):
             ex.monitor_alloc = True
             ex.escape_lines = _ESCAPES
+        if job.opts.get('cost_mode'):
+            ex.cost_mode = True
         if job.opts.get('fx_model'):
             ses.use_fx_model()
         if job.opts.get('bits_intrinsics'):
@@ -229,7 +231,7 @@ def _worker(job):
                 verdict, assign = ses.model_pc(pc, extras, quick=True)
                 if verdict == 'sat':
                     inputs = {name: concrete_input(ex, assign, cells) for name, cells in cellsout}
-                    res['samples'].append({'mark': rid, 'scale_depth': sd, 'pkgdir': res['pkgdir'], 'inputs': {k: v.hex() for k, v in inputs.items()},
+                    res['samples'].append({'mark': rid, 'job': job.label, 'scale_depth': sd, 'pkgdir': res['pkgdir'], 'inputs': {k: v.hex() for k, v in inputs.items()},
                                            'script': [_scriptval(ex, assign, t) for t in nondet],
                                            'call': go_call(job, inputs),
                                            'count': ex.mdd.count(pc, nbytes) if not extras else None})
@@ -268,6 +270,87 @@ def _scriptval(ex, assign, t):
     if t.w == 0:
         return 1 if v else 0
     return sgn(v, t.w) if t.w == 64 else v
+
+
+def _child(job, path):
+    import pickle
+    import resource
+    try:
+        lim = int(os.environ.get('VERIF_WORKER_MEM_GB', '6')) << 30
+        resource.setrlimit(resource.RLIMIT_AS, (lim, lim))
+    except Exception:
+        pass
+    try:
+        res = _worker(job)
+    except MemoryError:
+        res = {'label': job.label, 'harness': job.harness, 'ok': False, 'candidates': [], 'samples': [], 'stats': {},
+               'error': 'bound not completed: worker memory limit', 'inexact': 0, 'unsupported': [], 'wall_s': 0.0}
+    with open(path, 'wb') as f:
+        pickle.dump(res, f)
+
+
+def _run_pool(jobs, nproc):
+    """fork one process per job, at most nproc at a time; a worker that dies, exceeds its memory
+    limit or its deadline yields an 'incomplete' result instead of hanging the check"""
+    import pickle
+    tmp = tempfile.mkdtemp(prefix='verif-jobs-')
+    pending = list(enumerate(jobs))
+    running = {}   # pid -> (index, job, path, start)
+    results = [None] * len(jobs)
+    try:
+        while pending or running:
+            while pending and len(running) < nproc:
+                i, job = pending.pop(0)
+                path = os.path.join(tmp, '%d.pkl' % i)
+                pid = os.fork()
+                if pid == 0:
+                    code = 0
+                    try:
+                        _child(job, path)
+                    except BaseException:
+                        code = 1
+                    os._exit(code)
+                running[pid] = (i, job, path, time.time())
+            done = []
+            for pid, (i, job, path, start) in running.items():
+                try:
+                    rpid, status = os.waitpid(pid, os.WNOHANG)
+                except ChildProcessError:
+                    rpid, status = pid, 1
+                hard = (job.timeout or _DEFAULT_TIMEOUT) + 120
+                if rpid == 0 and time.time() - start > hard:
+                    try:
+                        os.kill(pid, 9)
+                        os.waitpid(pid, 0)
+                    except Exception:
+                        pass
+                    rpid, status = pid, -9
+                if rpid != 0:
+                    res = None
+                    if os.path.exists(path):
+                        try:
+                            with open(path, 'rb') as f:
+                                res = pickle.load(f)
+                        except Exception:
+                            res = None
+                    if res is None:
+                        res = {'label': job.label, 'harness': job.harness, 'ok': False, 'candidates': [], 'samples': [], 'stats': {},
+                               'error': 'bound not completed: worker exited abnormally (status %s; memory limit or deadline)' % status,
+                               'inexact': 0, 'unsupported': [], 'wall_s': time.time() - start}
+                    results[i] = res
+                    done.append(pid)
+            for pid in done:
+                del running[pid]
+            if not done:
+                time.sleep(0.05)
+    finally:
+        for pid in list(running):
+            try:
+                os.kill(pid, 9)
+            except Exception:
+                pass
+        shutil.rmtree(tmp, ignore_errors=True)
+    return results
 
 
 class Check:
@@ -322,12 +405,7 @@ class Check:
         self.prog = _PROG
         nproc = nproc or min(16, os.cpu_count() or 4)
         jobs = sorted(self.jobs, key=lambda j: -j.weight)
-        if len(jobs) == 1 or nproc == 1:
-            self.results = [_worker(j) for j in jobs]
-        else:
-            ctx = mp.get_context('fork')
-            with ctx.Pool(min(nproc, len(jobs))) as pool:
-                self.results = pool.map(_worker, jobs, chunksize=1)
+        self.results = _run_pool(jobs, nproc)
         return self.results
 
     # ------------------------------------------------------------------
@@ -346,7 +424,7 @@ class Check:
         # dedupe by (kind, what, pos): replay up to 3 witnesses per site
         bysite = {}
         for c in cands:
-            bysite.setdefault((c['kind'], c['what'], c['pos']), []).append(c)
+            bysite.setdefault((c['kind'], c['what'], c['pos'], c['job'] if getattr(self, 'describe_job', False) else ''), []).append(c)
         todo = []
         for site, lst in bysite.items():
             lst.sort(key=lambda c: (len(c['call']), c['call']))
@@ -376,6 +454,8 @@ class Check:
 
     def _report(self, c):
         desc = '%s %s %s' % (c['kind'], c['what'], c['pos'].replace(REPO + '/', ''))
+        if getattr(self, 'describe_job', False):
+            desc = '%s %s [%s]' % (c['kind'], c['what'], c.get('job', ''))
         if c.get('scale_depth'):
             desc += ' [nesting limit scaled 10000 -> %d in code and reference]' % c['scale_depth']
         for k in self.known:
@@ -383,7 +463,7 @@ class Check:
             parts = k.split(None, 1)
             if parts and parts[0] == 'property=%s' % self.pid and len(parts) > 1:
                 pat = parts[1].split(' :: ')[0]
-                if pat in desc:
+                if all(p.strip() in desc for p in pat.split(' && ')):
                     if k not in self.known_hits:
                         self.known_hits.append(k)
                     return
@@ -403,7 +483,7 @@ class Check:
         cases = []
         for r in self.results:
             pass
-        pool = [s for r in self.results for s in r.get('samples', [])]
+        pool = [s for r in self.results if not r.get('candidates') for s in r.get('samples', [])]
         import random
         random.Random(self.seed).shuffle(pool)
         pool.sort(key=lambda s: -len(s['call']))
@@ -425,6 +505,7 @@ class Check:
             self.notes.append('sample replay could not run: %s' % e)
             return 0, 0
         okc = sum(1 for n, _, _ in cases if out.get(n, ('', ''))[0] == 'PASS')
+        jobof = {cs[0]: s.get('job', 'sample') for cs, s in zip(cases, pool)}
         for n, script, call in cases:
             v = out.get(n, ('MISSING', ''))
             if v[0] in ('FAIL', 'PANIC'):
@@ -432,7 +513,7 @@ class Check:
                 # encoding predicted a pass: report it (ground truth), and flag the encoder
                 self.notes.append('encoder predicted PASS but native %s on %s' % (v, call[:200]))
                 self._report({'kind': 'assert', 'what': 'native-only ' + v[1], 'pos': '', 'call': call,
-                              'script': script, 'job': 'sample', 'native': v[0] + ' ' + v[1]})
+                              'script': script, 'job': jobof.get(n, 'sample'), 'native': v[0] + ' ' + v[1]})
             elif v[0] != 'PASS':
                 self.notes.append('sample replay inconclusive (%s) on %s' % (v[0], call[:200]))
         return okc, len(cases)
